@@ -60,6 +60,7 @@ type c16Params struct {
 	stopAt   time.Duration
 	cancelAt time.Duration
 	slowCb   bool
+	failFrom int64 // requests starting at or beyond this index always fail with gRPC Unavailable (a dead back end); -1 = never
 }
 
 func (p *c16Params) String() string {
@@ -67,8 +68,8 @@ func (p *c16Params) String() string {
 	for _, x := range p.growth {
 		g += fmt.Sprintf("+%v:%d", x.at, x.size)
 	}
-	return fmt.Sprintf("%s scan=%v range=[%d,%d) batch=%d par=%d cont=%v match=%d/%s buf=%d preonly=%v size0=%d growth=%s err=%d%% short=%d%% stop=%v cancel=%v seed=%d fseed=%d",
-		p.id, p.scan, p.start, p.end, p.batch, p.par, p.cont, p.nMatch, p.mName, p.buf, p.preOnly, p.size0, g, p.errPct, p.shortPct, p.stopAt, p.cancelAt, p.seed, p.fseed)
+	return fmt.Sprintf("%s scan=%v range=[%d,%d) batch=%d par=%d cont=%v match=%d/%s buf=%d preonly=%v size0=%d growth=%s err=%d%% short=%d%% stop=%v cancel=%v failFrom=%d seed=%d fseed=%d",
+		p.id, p.scan, p.start, p.end, p.batch, p.par, p.cont, p.nMatch, p.mName, p.buf, p.preOnly, p.size0, g, p.errPct, p.shortPct, p.stopAt, p.cancelAt, p.failFrom, p.seed, p.fseed)
 }
 
 type c16Delivery struct {
@@ -180,6 +181,10 @@ func (c *c16Client) GetRawEntries(ctx context.Context, start, end int64) (*ct.Ge
 	if start < 0 || end < start || end >= c.size {
 		c.beyond = append(c.beyond, fmt.Sprintf("GetRawEntries(%d,%d) with tree size %d", start, end, c.size))
 		return fail(jsonclient.RspError{Err: errors.New("verif: bad range"), StatusCode: http.StatusBadRequest})
+	}
+	if c.p.failFrom >= 0 && start >= c.p.failFrom {
+		// permanently failing: the only way out for the worker holding this range is the cancellation of its context
+		return fail(status.Error(codes.Unavailable, "verif: back end down"))
 	}
 	if int((h>>8)%100) < c.p.errPct && c.errRun[key] < 3 {
 		switch (h >> 16) % 6 {
@@ -313,11 +318,15 @@ func c16Run(out *verifkit.Out, p *c16Params) {
 		stopped   bool
 		cancelled bool
 		finalEnd  int64
+		stopT     time.Duration
+		cancelT   time.Duration
+		retT      time.Duration
 	)
 	pan := verifkit.Guard(func() {
 		synctest.Run(func() {
 			ctx, cancel := context.WithCancel(context.Background())
 			defer cancel()
+			t0 := time.Now()
 			c.mu.Lock()
 			c.abort = cancel
 			c.mu.Unlock()
@@ -354,6 +363,7 @@ func c16Run(out *verifkit.Out, p *c16Params) {
 					}
 					c.mu.Lock()
 					stopped = true
+					stopT = time.Since(t0)
 					out.T("stop", "ok")
 					c.mu.Unlock()
 					f.Stop()
@@ -368,6 +378,7 @@ func c16Run(out *verifkit.Out, p *c16Params) {
 					}
 					c.mu.Lock()
 					cancelled = true
+					cancelT = time.Since(t0)
 					out.T("cancel", "ok")
 					c.mu.Unlock()
 					cancel()
@@ -380,6 +391,7 @@ func c16Run(out *verifkit.Out, p *c16Params) {
 				} else {
 					runErr = f.Run(ctx, c.onBatch)
 				}
+				retT = time.Since(t0)
 			}()
 			select {
 			case <-fin:
@@ -423,6 +435,17 @@ func c16Run(out *verifkit.Out, p *c16Params) {
 	if c.runaway != "" {
 		out.Fail("request-loop "+key, c.runaway)
 		cancelled = true // what was delivered before the abort is still checked for duplicates, range and payload
+	}
+	// "terminates when cancelled": once the caller's context is cancelled the scan returns promptly, whatever the server does
+	// (a request in flight may take its scripted latency of at most 2.5 s; nothing else may hold it up)
+	if cancelled && c.runaway == "" && retT > cancelT+time.Minute {
+		out.Fail("cancel-slow "+key, fmt.Sprintf("context cancelled at %v, Run/ScanLog returned at %v", cancelT, retT))
+	}
+	if p.failFrom >= 0 {
+		out.Count("class:dead-backend")
+		if stopped && cancelled && stopT < cancelT && retT >= cancelT {
+			out.Count("observed:stop-alone-did-not-end-the-fetch-against-a-dead-backend")
+		}
 	}
 	if timedOut {
 		out.Fail("no-termination "+key, "Run/ScanLog had not returned after 1000 h of virtual time")
@@ -549,7 +572,7 @@ func c16Run(out *verifkit.Out, p *c16Params) {
 func c16Pick(r *verifkit.Rand, xs ...int) int { return xs[r.Intn(len(xs))] }
 
 func c16Gen(r *verifkit.Rand, it int) *c16Params {
-	p := &c16Params{id: fmt.Sprintf("s%d", it), target: -1}
+	p := &c16Params{id: fmt.Sprintf("s%d", it), target: -1, failFrom: -1}
 	p.seed = r.U64() % 4294967296
 	p.fseed = r.U64()
 	p.scan = it%3 == 2
@@ -627,6 +650,15 @@ func c16Gen(r *verifkit.Rand, it int) *c16Params {
 			p.cancelAt = time.Duration(1+r.Intn(4000)) * time.Millisecond
 		}
 	}
+	if r.Intn(16) == 0 && p.size0 > p.start {
+		// a back end that dies part-way: only cancellation ends the scan; sometimes Stop is tried first
+		p.failFrom = p.start + r.I64n(p.size0-p.start)
+		p.cancelAt = time.Duration(1+r.Intn(20)) * time.Minute
+		p.stopAt = 0
+		if r.Bool() {
+			p.stopAt = p.cancelAt / 2
+		}
+	}
 	if p.scan {
 		switch r.Intn(8) {
 		case 0:
@@ -681,9 +713,16 @@ func TestVerifC16(t *testing.T) {
 		{id: "b6", target: -1, size0: 5, batch: 2, par: 2, nMatch: 1, seed: 7, cont: true, growth: []c16Growth{{time.Second, 6}, {50 * time.Second, 9}, {3 * time.Minute, 2500}}, stopAt: 20 * time.Minute, shortPct: 30},
 		{id: "b7", target: -1, scan: true, size0: 120, batch: 16, par: 4, nMatch: 8, buf: 0, seed: 8, matcher: MatchAll{}, mName: "all", shortPct: 60, errPct: 10, slowCb: true},
 		{id: "b9", target: -1, size0: 5, start: 8, batch: 2, par: 2, nMatch: 1, seed: 10, cont: true, growth: []c16Growth{{time.Second, 6}, {50 * time.Second, 9}, {3 * time.Minute, 20}}, stopAt: 20 * time.Minute},
+		{id: "c0", target: -1, size0: 50, batch: 5, par: 2, nMatch: 1, seed: 20, failFrom: 20, cancelAt: 5 * time.Minute, shortPct: 30},
+		{id: "c1", target: -1, size0: 50, batch: 5, par: 3, nMatch: 1, seed: 21, failFrom: 20, stopAt: 2 * time.Minute, cancelAt: 30 * time.Minute},
+		{id: "c2", target: -1, scan: true, size0: 60, batch: 8, par: 2, nMatch: 2, buf: 1, seed: 22, failFrom: 17, cancelAt: 3 * time.Minute, matcher: MatchAll{}, mName: "all"},
+		{id: "c3", target: -1, size0: 9, batch: 2, par: 2, nMatch: 1, seed: 23, failFrom: 30, cont: true, growth: []c16Growth{{20 * time.Second, 40}}, stopAt: 4 * time.Minute, cancelAt: 25 * time.Minute},
 		{id: "b8", target: -1, scan: true, size0: 90, batch: 1000, par: 1, nMatch: 3, buf: 1000, seed: 9, matcher: CertParseFailMatcher{}, mName: "parsefail", preOnly: true},
 	}
 	for _, p := range fixed {
+		if p.failFrom == 0 {
+			p.failFrom = -1
+		}
 		p.fseed = p.seed * 77
 		out.Count("mode:fixed")
 		c16Run(out, p)
